@@ -616,14 +616,14 @@ class IDManager:
                     )
                     return id
 
-        # If the subspace is too large, try rejection sampling. We will try to
-        # do it several times, and if we fail, we will do a cleanup and try
-        # again. Cleanups are progressively more aggressive.
-        for frac in [0.75, 0.6, 0.5, 0]:
-            with self.conn:
-                self.conn.execute("BEGIN IMMEDIATE")
-                id = None
-                with closing(self.conn.cursor()) as cursor:
+                # If the subspace is too large, try rejection sampling. We will try to
+                # do it several times, and if we fail, we will do a cleanup and try
+                # again. Cleanups are progressively more aggressive. All of this happens
+                # in the same transaction as the lookup above, so that concurrent
+                # requests for the same description cannot both miss it and a killed
+                # process cannot leave a cleanup without the insertion.
+                for frac in [0.75, 0.6, 0.5, 0]:
+                    id = None
                     # Run rejection sampling.
                     for j in range(8):
                         id = id_space.gen_random_id(subspace)
@@ -639,14 +639,14 @@ class IDManager:
                             atime=atime,
                         )
                         return id
-            if frac == 0:
-                break
-            # If it failed, try do a cleanup.
-            self.cleanup(
-                id_space,
-                subspace,
-                max_ids=min(int(subspace_size * frac), self.max_ids_per_subspace),
-            )
+                    if frac == 0:
+                        break
+                    # If it failed, try do a cleanup.
+                    self.cleanup(
+                        id_space,
+                        subspace,
+                        max_ids=min(int(subspace_size * frac), self.max_ids_per_subspace),
+                    )
 
         raise RuntimeError(
             "Failed to find an unused id, row count:"
